@@ -36,6 +36,7 @@ type inlineReport struct {
 	Helpers  []string         // helpers expanded (FullName)
 	Sites    int              // call sites expanded
 	Skipped  []string         // helper call sites left alone, with reason
+	Renamed  []string         // functions taken to be renamed functions of the pinned tree (names.go)
 	Fallback string           // non-empty when the rewritten tree did not load and was abandoned
 	LineMap  map[string][]int // rewritten file -> original line of every line
 }
@@ -128,6 +129,9 @@ func inlineNewHelpers(pkgs []*packages.Package, frozen map[string]frozenFn, over
 				if _, known := frozen[obj.FullName()]; known {
 					continue
 				}
+				if _, isRename := renamedFuncs[obj.FullName()]; isRename {
+					continue
+				}
 				fname := pk.Fset.Position(f.Pos()).Filename
 				if why := helperOK(fd, obj, pk.TypesInfo); why != "" {
 					rep.Skipped = append(rep.Skipped, obj.FullName()+": not expanded ("+why+")")
@@ -177,11 +181,19 @@ func inlineNewHelpers(pkgs []*packages.Package, frozen map[string]frozenFn, over
 			})
 			for _, list := range lists {
 				for _, st := range list {
-					call, form := siteOf(st)
-					if call == nil {
-						continue
+					var call *ast.CallExpr
+					var form string
+					var h *helperInfo
+					var recvExpr ast.Expr
+					for _, cand := range siteCands(st) {
+						if hh, re := resolveHelper(cand.call, pk, helpers); hh != nil {
+							if cand.form == "arg" && hh.obj.Type().(*types.Signature).Results().Len() != 1 {
+								continue
+							}
+							call, form, h, recvExpr = cand.call, cand.form, hh, re
+							break
+						}
 					}
-					h, recvExpr := resolveHelper(call, pk, helpers)
 					if h == nil {
 						continue
 					}
@@ -289,6 +301,59 @@ func inlineNewHelpers(pkgs []*packages.Package, frozen map[string]frozenFn, over
 }
 
 // siteOf: the statement evaluates exactly one candidate call, unconditionally and before anything else it evaluates.
+type siteCand struct {
+	call *ast.CallExpr
+	form string
+}
+
+// siteCands: the direct form, and the first-evaluated argument of the direct form's call.
+func siteCands(st ast.Stmt) []siteCand {
+	var out []siteCand
+	c, f := siteOf(st)
+	if c != nil {
+		out = append(out, siteCand{c, f})
+		if f == "expr" || f == "assign" || f == "return" || f == "init" {
+			if a := firstArgCall(c); a != nil {
+				out = append(out, siteCand{a, "arg"})
+			}
+		}
+	}
+	return out
+}
+
+func pureExpr(e ast.Expr) bool {
+	ok := true
+	ast.Inspect(e, func(n ast.Node) bool {
+		switch x := n.(type) {
+		case *ast.CallExpr, *ast.FuncLit:
+			ok = false
+		case *ast.UnaryExpr:
+			if x.Op == token.ARROW {
+				ok = false
+			}
+		}
+		return ok
+	})
+	return ok
+}
+
+// firstArgCall: outer is `f(h(x), …)` with f a plain name or selector chain and every earlier argument a literal, so that
+// evaluating h(x) in front of the statement keeps the order of effects.
+func firstArgCall(outer *ast.CallExpr) *ast.CallExpr {
+	if outer == nil || !pureExpr(outer.Fun) || outer.Ellipsis.IsValid() {
+		return nil
+	}
+	for _, a := range outer.Args {
+		if c, ok := ast.Unparen(a).(*ast.CallExpr); ok {
+			return c
+		}
+		if _, lit := ast.Unparen(a).(*ast.BasicLit); !lit {
+			return nil
+		}
+	}
+	return nil
+}
+
 func siteOf(st ast.Stmt) (*ast.CallExpr, string) {
 	pure := func(e ast.Expr) bool {
 		ok := true
@@ -342,11 +407,6 @@ func siteOf(st ast.Stmt) (*ast.CallExpr, string) {
 	switch x := st.(type) {
 	case *ast.ExprStmt, *ast.AssignStmt:
 		c, f := fromSimple(st)
-		if c != nil {
-			for _, a := range c.Args {
-				_ = a
-			}
-		}
 		return c, f
 	case *ast.ReturnStmt:
 		if len(x.Results) == 1 {
